@@ -53,12 +53,16 @@ def build_case(u):
     names = sorted(base + s for s in sufs)
     vals = [gen.g_data_value(u) for _ in names]
     chunk = u.range(1, 6)
-    return {"cfg": cfg, "op": op, "driver": driver, "names": names, "vals": vals, "forms": forms, "base": base, "chunk": chunk, "ctx_name": ctx_name}
+    # walks through the real clients are sometimes preceded by another walk of the same session that the caller abandoned
+    # after its first row: what that walk left unread belongs to no later response
+    prior = driver != "nb" and u.bool()
+    return {"cfg": cfg, "op": op, "driver": driver, "names": names, "vals": vals, "forms": forms, "base": base, "chunk": chunk, "ctx_name": ctx_name,
+            "prior": prior}
 
 
 def describe(c):
     return {"cfg": c["cfg"].describe(), "op": c["op"], "driver": c["driver"], "forms": c["forms"], "base": c["base"],
-            "chunk": c["chunk"], "ctx_name": c.get("ctx_name", b""), "varbinds": [[rb.oid_text(n), v.kind, v.note, v.tlv, repr(v.py)] for n, v in zip(c["names"], c["vals"])],
+            "chunk": c["chunk"], "ctx_name": c.get("ctx_name", b""), "prior": c.get("prior", False), "varbinds": [[rb.oid_text(n), v.kind, v.note, v.tlv, repr(v.py)] for n, v in zip(c["names"], c["vals"])],
             "_cfg": gen.cfg_to_json(c["cfg"]), "_names": [list(n) for n in c["names"]], "_tlvs": [v.tlv for v in c["vals"]],
             "_pys": [py_to_json(v) for v in c["vals"]], "_kinds": [v.kind for v in c["vals"]]}
 
@@ -84,10 +88,16 @@ def execute(G, c):
     cfg, op = c["cfg"], c["op"]
     names, vals, forms = c["names"], c["vals"], c["forms"]
     vbs = [rb.varbind(rb.enc_oid(n), v.tlv, forms["vb"]) for n, v in zip(names, vals)]
-    state = {"pos": 0}
+    state = {"pos": 0, "n": 0}
+    prior = bool(c.get("prior")) and op in ("getnext", "getbulk")
+    PRIOR_BASE = (1, 3, 6, 1, 4, 1, 99999)
 
     def handler(d):
         req = ag.decode_request(cfg, d, strict=False)
+        state["n"] += 1
+        if prior and state["n"] == 1:
+            rows = [rb.varbind(rb.enc_oid(PRIOR_BASE + (i,)), rb.enc_int(-7000 - i)) for i in range(1, 5)]
+            return [ag.build_reply(cfg, req, rows if req.get("pdu_tag") == rb.PDU_GETBULK else rows[:1])]
         if op in ("get", "get_many"):
             return [ag.build_reply(cfg, req, vbs, forms=forms, ctx_name=c.get("ctx_name", b""))]
         # walk: serve next chunk, then endOfMibView
@@ -107,7 +117,14 @@ def execute(G, c):
         call = ("getnext", rb.oid_text(c["base"]))
     else:
         call = ("getbulk", rb.oid_text(c["base"]), c["chunk"])
-    out = drivers.run_api(G, c["driver"], cfg, call, handler, timeout=5.0, max_steps=len(vbs) + 3)
+    if prior:
+        first = ("getbulk1", rb.oid_text(PRIOR_BASE), 4) if cfg.version != "v1" else ("getnext1", rb.oid_text(PRIOR_BASE))
+        outs = drivers.run_calls(G, c["driver"], cfg, [first, call], handler, timeout=5.0, max_steps=len(vbs) + 3)
+        if outs[0].kind != "ok" or outs[0].value != (rb.oid_text(PRIOR_BASE + (1,)), -7001):
+            raise core.Failure("prior-walk-first-row", "first row of the abandoned walk over %s: %r" % (cfg.describe(), outs[0]))
+        out = outs[1]
+    else:
+        out = drivers.run_api(G, c["driver"], cfg, call, handler, timeout=5.0, max_steps=len(vbs) + 3)
     sig = value_signature(vals)
     if out.kind != "ok":
         raise core.Failure("no-result:" + sig, "%s(%s) over %s gave %r for a well-formed response" % (op, call[1:], cfg.describe(), out))
@@ -170,7 +187,7 @@ def replay(rep, case, body=None):
     G = drivers.load()
     vals = [gen.Val(k, py_from_json(p), t) for k, p, t in zip(case["_kinds"], case["_pys"], case["_tlvs"])]
     c = {"cfg": gen.cfg_from_json(case["_cfg"]), "op": case["op"], "driver": case["driver"], "forms": case["forms"],
-         "base": tuple(case["base"]) if case["base"] else None, "chunk": case["chunk"], "ctx_name": case.get("ctx_name", b""),
+         "base": tuple(case["base"]) if case["base"] else None, "chunk": case["chunk"], "ctx_name": case.get("ctx_name", b""), "prior": case.get("prior", False),
          "names": [tuple(n) for n in case["_names"]], "vals": vals}
     try:
         execute(G, c)
